@@ -31,17 +31,29 @@ def RefVariant.counted : RefVariant → Bool
 /-- is a feature enabled in a crate's feature set (`""` = no guard) -/
 def featOn (feats : List String) (f : String) : Bool := f == "" || feats.contains f
 
-/-- `to_dyn!` has a usable arm for this variant when expanded in a crate with features `callerFeats`:
-an arm exists in the (regenerated) table and its `cfg` guard — evaluated in the CALLER because the macro is
-exported — is satisfied. -/
-def toDynHasArm (callerFeats : List String) (v : RefVariant) : Bool :=
-  Gen.toDynArms.any (fun a => a.1 == v.name && featOn callerFeats a.2)
+/-- is a feature on in an rrtk build with cargo features `feats` (`std` implies `alloc` in rrtk's Cargo.toml) -/
+def rrtkFeatOn (feats : List String) (f : String) : Bool :=
+  feats.contains f || (f == "alloc" && feats.contains "std")
 
-/-- the variant exists in an rrtk build with features `rrtkFeats` (guards on the enum, evaluated in rrtk;
-`std` implies `alloc`) -/
+/-- the `#[cfg]` on a macro definition (a conjunction), evaluated in rrtk -/
+def itemCfgHolds (rrtkFeats : List String) (cfg : List (String × Bool)) : Bool :=
+  cfg.all (fun c => rrtkFeatOn rrtkFeats c.1 == c.2)
+
+/-- `to_dyn!` has a usable arm for this variant when rrtk is built with `rrtkFeats` and the macro is expanded in a
+crate with features `callerFeats`: some definition of the implementing macro is compiled into rrtk (its item-level
+`cfg` holds in rrtk) and has an arm for the variant whose in-body `cfg` guard — evaluated in the CALLER because the
+macro is exported — is satisfied. -/
+def toDynHasArmIn (callerFeats rrtkFeats : List String) (v : RefVariant) : Bool :=
+  Gen.toDynDefs.any (fun d => itemCfgHolds rrtkFeats d.1 &&
+    d.2.any (fun a => a.1 == v.name && featOn callerFeats a.2))
+
+/-- the same for an rrtk built with `std` (the harness's default configuration) -/
+def toDynHasArm (callerFeats : List String) (v : RefVariant) : Bool :=
+  toDynHasArmIn callerFeats ["std", "alloc"] v
+
+/-- the variant exists in an rrtk build with features `rrtkFeats` (guards on the enum, evaluated in rrtk) -/
 def variantExists (rrtkFeats : List String) (v : RefVariant) : Bool :=
-  Gen.refVariants.any (fun a => a.1 == v.name &&
-    (featOn rrtkFeats a.2 || (a.2 == "alloc" && rrtkFeats.contains "std")))
+  Gen.refVariants.any (fun a => a.1 == v.name && (a.2 == "" || rrtkFeatOn rrtkFeats a.2))
 
 /-- the variants the macro lists (has an arm for, whatever the guard) -/
 def toDynLists (v : RefVariant) : Bool := Gen.toDynArms.any (fun a => a.1 == v.name)
